@@ -42,7 +42,8 @@ ops (numbers exact: "num/den" or JSON integers):
  `quatdist` {pi, theta} ↦ rat                            `np.where(theta > pi/2, pi - theta, theta)`
  `hyp`   {grid, A} ↦ {cover, sep, hup, square, sym, anti, diag}   the hypotheses of `half_matrix_symm` /
           `fold_diag_empty`, decided by the model's own validators
- `area`  {rank, pts: [[bits,bits,bits],…]} ↦ bits | AssertionError   Float model of the tail of `_calculate_borders`
+ `area`  {sing?: [bits…], pts: [[bits,bits,bits],…]} ↦ bits | AssertionError   (`sing` = singular values of the
+          shared vertices: with it the rank assertion with tol 1e-9 is included; without it only sort + Girard)   Float model of the tail of `_calculate_borders`
           (IEEE-754 bit patterns in and out; modelled, not verified)
 -/
 def handle (op : String) (j : Json) : R Json := do
@@ -85,8 +86,11 @@ def handle (op : String) (j : Json) : R Json := do
       match (← asArr r) with
       | [a, b, c] => pure ((← asFloatBits a), (← asFloatBits b), (← asFloatBits c))
       | _ => throw "bad point") (← getField j "pts")
-    let rank ← asNat (← getField j "rank")
-    pure (floatBitsJ (← liftE (Molgri.FaceArea.borderAreaChecked rank 4 pts)))
+    match j.getObjVal? "sing" with
+    | .ok sj =>
+      let sing ← asList asFloatBits sj
+      pure (floatBitsJ (← liftE (Molgri.FaceArea.borderAreaChecked sing 4 pts)))
+    | .error _ => pure (floatBitsJ (← liftE (Molgri.FaceArea.borderArea pts)))
   | _ => throw s!"unknown op {op}"
 
 end Molgri.Drv.C04
